@@ -447,12 +447,11 @@ pub struct Minimised {
 
 pub fn minimise(prop: &Prop, batch: &Batch, tier: &str, seed: u64, idx: u64, class: &str) -> Option<Minimised> {
     let fatal = class.starts_with("fatal:") || class == "hang";
+    if fatal {
+        return minimise_fatal(prop, batch, tier, seed, idx, class);
+    }
     // first: the recorded trace of the original run
-    let start: Trace = if fatal {
-        // cannot record in-process; generate the trace by running the generator side only is impossible,
-        // so replay from the seed in a subprocess that prints nothing: fall back to a seed-only replay file
-        return Some(Minimised { trace: Trace::default(), class: class.to_string(), detail: String::new(), log: vec![], executions: 0 });
-    } else {
+    let start: Trace = {
         let r = {
             let sc = batch.scenario;
             let s = seed_for(seed, prop.id, batch.name, idx);
@@ -487,6 +486,58 @@ pub fn minimise(prop: &Prop, batch: &Batch, tier: &str, seed: u64, idx: u64, cla
     Some(Minimised { trace: trim(fin.trace), class: v.class, detail: v.detail, log: fin.log, executions: st.executions })
 }
 
+/// A violation that kills the process: recover the choices of the fatal run from a child that
+/// writes every draw to a file as it happens, then delta-debug with one child process per candidate.
+fn minimise_fatal(prop: &Prop, batch: &Batch, tier: &str, seed: u64, idx: u64, class: &str) -> Option<Minimised> {
+    let dir = run_dir();
+    let tf = dir.join(format!("fatal-{}.draws", idx));
+    let exe = std::env::current_exe().ok()?;
+    let mut child = Command::new(exe)
+        .args(["record-seed", prop.id, batch.name, tier, &seed_for(seed, prop.id, batch.name, idx).to_string()])
+        .arg(&tf)
+        .stdin(Stdio::null())
+        .stdout(Stdio::null())
+        .stderr(Stdio::null())
+        .spawn()
+        .ok()?;
+    let t0 = Instant::now();
+    loop {
+        if let Ok(Some(_)) = child.try_wait() {
+            break;
+        }
+        if t0.elapsed() > Duration::from_secs(120) {
+            let _ = child.kill();
+            let _ = child.wait();
+            break;
+        }
+        std::thread::sleep(Duration::from_millis(5));
+    }
+    let raw = std::fs::read(&tf).unwrap_or_default();
+    let _ = std::fs::remove_file(&tf);
+    let mut start = Trace::default();
+    for rec in raw.chunks_exact(9) {
+        if (rec[0] as usize) < 4 {
+            start.v[rec[0] as usize].push(u64::from_le_bytes(rec[1..9].try_into().unwrap()));
+        }
+    }
+    let start = trim(start);
+    // does the recovered trace reproduce the death?
+    match exec_trace_subprocess(prop.id, batch.name, tier, &start) {
+        Some((c, _)) if c == class => {}
+        _ => return Some(Minimised { trace: Trace::default(), class: class.to_string(), detail: String::new(), log: vec![], executions: 0 }),
+    }
+    let (p, b) = (prop.id, batch.name);
+    let mut test = |cand: &Trace| -> Option<Trace> {
+        match exec_trace_subprocess(p, b, tier, cand) {
+            Some((c, t)) if c == class => Some(trim(t)),
+            _ => None,
+        }
+    };
+    let max_exec: u64 = std::env::var("VERIF_SHRINK_EXEC_FATAL").ok().and_then(|s| s.parse().ok()).unwrap_or(400);
+    let (best, st) = simcore::shrink::shrink(start, &mut test, max_exec);
+    Some(Minimised { trace: best, class: class.to_string(), detail: String::new(), log: vec!["(process-killing violation: the event log ends with the process)".into()], executions: st.executions })
+}
+
 pub fn write_replay(prop: &Prop, batch: &Batch, tier: &str, seed: u64, idx: u64, m: &Minimised) -> PathBuf {
     let dir = verif_root().join("replays");
     let _ = std::fs::create_dir_all(&dir);
@@ -497,7 +548,7 @@ pub fn write_replay(prop: &Prop, batch: &Batch, tier: &str, seed: u64, idx: u64,
     let v = json!({
         "property": prop.id, "batch": batch.name, "tier": tier, "verif_seed": seed, "run_index": idx,
         "run_seed": seed_for(seed, prop.id, batch.name, idx),
-        "mode": if fatal { "seed" } else { "trace" },
+        "mode": if fatal && m.trace.total_len() == 0 { "seed" } else if fatal { "trace-subprocess" } else { "trace" },
         "class": m.class, "detail": m.detail,
         "trace": trace_to_json(&m.trace),
         "shrink_executions": m.executions,
@@ -552,6 +603,20 @@ pub fn replay_main(path: &str) -> i32 {
         };
     }
     let t = trace_from_json(&v["trace"]);
+    if v["mode"].as_str() == Some("trace-subprocess") {
+        // process-killing violation with a minimised trace: execute it in a child
+        return match exec_trace_subprocess(prop.id, batch.name, tier, &t) {
+            Some((c, _)) if c == class => {
+                println!("reproduced: {class} (child process died executing the minimised trace)");
+                println!("VIOLATION property={} replay={}", prop.id, path);
+                1
+            }
+            other => {
+                eprintln!("did not reproduce: got {:?}", other.map(|x| x.0));
+                2
+            }
+        };
+    }
     let r = run_in_thread(batch.scenario, &t, true);
     match r.violation {
         Some(viol) if viol.class == class => {
